@@ -63,7 +63,7 @@ func vMaterialise(dir string, c *vCase, order []int) error {
 		}
 		if nd.P == 2 || nd.P == 3 {
 			for _, f := range vLists {
-				m[f] = []string{f + "@" + vName(n) + ".1", f + "@" + vName(n) + ".2"}
+				m[f] = []string{f + "@" + vName(n) + ".1", f + "@" + vName(n) + ".2", f + "@" + vName(n) + ".3"}
 			}
 		}
 		if nd.P == 3 {
@@ -224,6 +224,11 @@ func TestVerifForests(t *testing.T) {
 		}
 		// (a) a fresh loader per node; (b) one shared loader asked for all nodes in a case-dependent order
 		shared := NewLoader(dir)
+		type kept struct {
+			k   int
+			cfg *Config
+		}
+		var retained []kept
 		for pass := 0; pass < 2; pass++ {
 			for j := 0; j < n; j++ {
 				k := j
@@ -252,9 +257,18 @@ func TestVerifForests(t *testing.T) {
 					}
 					if d := vDiff(vNormalise(r.cfg), vExpected(e)); d != "" {
 						report(idx, fmt.Sprintf("mismatch-pass%d", pass), vName(k+1), d, &c)
+					} else if pass == 1 {
+						retained = append(retained, kept{k, r.cfg})
 					}
 				}
 				nchecked++
+			}
+		}
+		// a configuration that was correct when it was returned must stay correct while the same loader
+		// resolves other targets (no aliasing of list settings through the loader's cache)
+		for _, kp := range retained {
+			if d := vDiff(vNormalise(kp.cfg), vExpected(c.Expect[kp.k])); d != "" {
+				report(idx, "mutated-after-return", vName(kp.k+1), d, &c)
 			}
 		}
 	}
